@@ -821,7 +821,7 @@ func (u *Unmarshaler) processNamedFieldWithoutValue(fieldType reflect.Type, valu
 	}
 
 	switch fieldKind {
-	case reflect.Array, reflect.Map, reflect.Slice:
+	case reflect.Array, reflect.Slice:
 		if !opts.optional() {
 			return u.processFieldNotFromString(fieldType, value, valueWithParent{
 				value: emptyMap,
